@@ -886,3 +886,19 @@ func (e *Exec) LogCall(st *State, fn *ssa.Function, args []Val) {
 	}
 	e.Outs = append(e.Outs, OutEvent{Guard: st.G, Chan: name})
 }
+
+// FloatByArg: symbolic float named after the concrete string argument.
+func (e *Exec) FloatByArg(prefix string, arg Val) Val {
+	name, ok := e.concStr(arg)
+	if !ok {
+		panic(&UnsupportedErr{Msg: "float-by-arg stub needs a concrete text argument"})
+	}
+	return e.Input(prefix+"_"+strings.TrimSpace(name), "float", types.Typ[types.Float64])
+}
+
+// BoolNilPerCall: (fresh symbolic bool, nil error) for the k-th call.
+func (e *Exec) BoolNilPerCall(prefix string) Val {
+	e.stubCalls[prefix]++
+	b := e.Input(fmt.Sprintf("%s_%d", prefix, e.stubCalls[prefix]), "bool", types.Typ[types.Bool])
+	return TupleV{b, &IfaceV{}}
+}
